@@ -109,9 +109,9 @@ theorem apiInvoke_dry (ctx : Ctx) (hdry : ctx.cfg.dry = true) (fn : Fn) (st : St
                   · injection hchk with h; rw [← h]; show w2.log = []; rw [hp, hlog]
                   · cases hchk
                   · cases hchk
-              have hb := buildList_dry ctx hdry (engineFuel w3) params s w3
+              have hb := buildList_dry ctx hdry (engineFuel w3 params) params s w3
               rw [← wrapErr_state _ DErr.argsFailed] at hb
-              cases hbl : EM.wrapErr (buildList ctx (engineFuel w3) params s) DErr.argsFailed w3 with
+              cases hbl : EM.wrapErr (buildList ctx (engineFuel w3 params) params s) DErr.argsFailed w3 with
               | mk r4 w4 =>
                 rw [hbl] at hb
                 obtain ⟨l, hl, hcb⟩ := hb
